@@ -35,6 +35,11 @@ package keygen
 //@   loop 3: invariant[C08,C02] each(r.Helper.partyIDs[:rangeindex+1], j, indom(PublicData, j) && PublicData[j] != nil && fresh(PublicData[j]) && ptval(PublicData[j].ECDSA) == ite(r.PreviousPublicSharesECDSA != nil, p_add(evalpt(ShamirPublicPolynomial, idsc(j)), old(ptval(r.PreviousPublicSharesECDSA[j]))), evalpt(ShamirPublicPolynomial, idsc(j))))
 // (induction on the session object) on success the next round starts from the state invariant its methods assume
 //@   ensures result1 == nil ==> (typeis(result0, *round5) && result0.(*round5).round4 == r && result0.(*round5).UpdatedConfig != nil && result0.(*round5).UpdatedConfig.Public != nil)
+// refinement of the interface contract of round.Round.Finalize (what the handler relies on)
+//@   ensures !closed(out)
+//@   ensures result1 == nil ==> result0 != nil
+//@   ensures typeis(result0, *round.Abort) ==> result0.(*round.Abort).Err != nil
+//@   ensures typeis(result0, *round.Output) ==> result0.(*round.Output).Result != nil
 
 // ---- round state invariants (established by the start function / the previous Finalize)
 //@ pred khok(h *round.Helper) := h != nil && h.hash != nil && h.hash.h != nil && h.info.Group != nil && typeis(h.info.Group, curve.Secp256k1) && !held(h.mtx)
@@ -132,16 +137,35 @@ package keygen
 //@   loop 3: invariant k3ok(r) && skok(r.PaillierSecret) && h != nil && h.h != nil && each(r.VSSSecret.coefficients, c, c != nil) && forall(j, party.ID, inslice(r.Helper.partyIDs, j) ==> (kparty(r.round2, j) && idsc(j) != s_zero()))
 // (induction on the session object) on success the next round starts from the state invariant its methods assume
 //@   ensures result1 == nil ==> (typeis(result0, *round4) && result0.(*round4).round3 == r && len(result0.(*round4).RID) == 32 && len(result0.(*round4).ChainKey) == 32)
+// refinement of the interface contract of round.Round.Finalize (what the handler relies on)
+//@   ensures !closed(out)
+//@   ensures result1 == nil ==> result0 != nil
+//@   ensures typeis(result0, *round.Abort) ==> result0.(*round.Abort).Err != nil
+//@   ensures typeis(result0, *round.Output) ==> result0.(*round.Output).Result != nil
 //@ func (*round2).Finalize
 //@   nopanic[C05]
 //@   requires k2ok(r) && out != nil && !closed(out) && r.SchnorrRand != nil && r.Pedersen[r.Helper.info.SelfID] != nil && pedok(r.Pedersen[r.Helper.info.SelfID])
 // (induction on the session object) on success the next round starts from the state invariant its methods assume
 //@   ensures result1 == nil ==> (typeis(result0, *round3) && k3ok(result0.(*round3)) && result0.(*round3).round2 == r)
+// refinement of the interface contract of round.Round.Finalize (what the handler relies on)
+//@   ensures !closed(out)
+//@   ensures result1 == nil ==> result0 != nil
+//@   ensures typeis(result0, *round.Abort) ==> result0.(*round.Abort).Err != nil
+//@   ensures typeis(result0, *round.Output) ==> result0.(*round.Output).Result != nil
 //@ func (*round5).Finalize
 //@   nopanic[C05]
 //@   requires r != nil && k4ok(r.round4)
+// refinement of the interface contract of round.Round.Finalize (what the handler relies on)
+//@   ensures result1 == nil ==> result0 != nil
+//@   ensures typeis(result0, *round.Abort) ==> result0.(*round.Abort).Err != nil
+//@   ensures typeis(result0, *round.Output) ==> result0.(*round.Output).Result != nil
 //@ func (*round1).Finalize
 //@   nopanic[C05]
 //@   requires k1ok(r) && out != nil && !closed(out) && each(r.VSSSecret.coefficients, c, c != nil) && idsc(r.Helper.info.SelfID) != s_zero()
 // (induction on the session object) on success the next round starts from the state invariant its methods assume
 //@   ensures result1 == nil ==> (typeis(result0, *round2) && k2ok(result0.(*round2)) && skok(result0.(*round2).PaillierSecret) && result0.(*round2).PedersenSecret != nil && result0.(*round2).SchnorrRand != nil)
+// refinement of the interface contract of round.Round.Finalize (what the handler relies on)
+//@   ensures !closed(out)
+//@   ensures result1 == nil ==> result0 != nil
+//@   ensures typeis(result0, *round.Abort) ==> result0.(*round.Abort).Err != nil
+//@   ensures typeis(result0, *round.Output) ==> result0.(*round.Output).Result != nil
